@@ -79,9 +79,9 @@ def parse(sx, fancy, ra):
     return list(mt.groups())
 
 
-def check_tuple(v, ra):
+def check_tuple(v, ra, obj=None):
     out = []
-    a = Angle(v)
+    a = Angle(v) if obj is None else obj
     try:
         tup = a.ra_tuple() if ra else a.dms_tuple()
         d, m, s, sg = tup
@@ -295,6 +295,85 @@ def run_bfs_states(x0, ctx):
     ctx.sample({"bfs_initial": x0, "states": len(vals), "value": vals[len(vals) // 2]})
 
 
+# -- one Angle object over a history of observers and in-place mutators ----------------------------
+
+OH_STARTS = [-87.32, -1e-20, -5e-324, 359.99999999999994, -0.5 / 3600.0, 15.25, -359.9999999999723, 180.0]
+OH_OPS = [("dms_tuple",), ("ra_tuple",), ("dms_str",), ("ra_str",), ("to_positive",), ("set", 272.68),
+          ("set", -1e-15), ("set_ra", 23.99999999999), ("set_radians", -1e-18), ("set_tolerance", 0.0)]
+
+
+def _oh_views(a):
+    return (a.dms_tuple(), a.ra_tuple(), a.dms_str(True, 3), a.dms_str(False, 0), a.ra_str(True, 3), a.ra_str(False, -1))
+
+
+def _oh_apply(a, op):
+    k = op[0]
+    if k == "dms_str":
+        a.dms_str(True, 2)
+    elif k == "ra_str":
+        a.ra_str(False, 2)
+    elif len(op) == 1:
+        getattr(a, k)()
+    else:
+        getattr(a, k)(op[1])
+
+
+def check_object_history(case):
+    """After every step of the history the decompositions and strings of the object are those of a
+    fresh Angle holding the same value, the value is inside (-360, 360), and the tuple clauses hold on
+    the object itself."""
+    a = Angle(case["start"])
+    out = []
+    for k, op in enumerate(case["history"]):
+        op = tuple(op)
+        try:
+            _oh_apply(a, op)
+            v = a._deg
+            if not (-360.0 < v < 360.0):
+                out.append(("history_range", "after %r on Angle(%r) the object holds %r, outside (-360, 360)"
+                            % (case["history"][:k + 1], case["start"], v)))
+            fresh = Angle()
+            fresh._deg = v
+            fresh._tol = a._tol
+            got, exp = _oh_views(a), _oh_views(fresh)
+            if got != exp:
+                bad = [i for i in range(len(got)) if got[i] != exp[i]][0]
+                out.append(("history_views", "after %r on Angle(%r) (value now %r) view %d is %r, a fresh object "
+                            "of that value gives %r" % (case["history"][:k + 1], case["start"], v, bad, got[bad], exp[bad])))
+            for ra in (False, True):
+                out += [("history_" + s_, "after %r on Angle(%r): %s" % (case["history"][:k + 1], case["start"], m))
+                        for s_, m in check_tuple(v, ra, obj=a) if s_ in ("tuple", "tuple_range", "tuple_recombine",
+                                                                        "tuple_sign")]
+        except Exception as ex:
+            out.append(("history_exception", "history %r on Angle(%r) raised %r" % (case["history"][:k + 1],
+                                                                                   case["start"], ex)))
+        if out:
+            break
+    return out
+
+
+def object_history_cases(tier):
+    import itertools
+    depth = 4 if tier == "thorough" else 3
+    return [{"start": x, "history": [list(o) for o in h]} for x in OH_STARTS
+            for d in range(1, depth + 1) for h in itertools.product(OH_OPS, repeat=d)]
+
+
+def run_object_history(block, ctx):
+    for case in block:
+        ctx.evals += 6 * len(case["history"])
+        ctx.transitions += len(case["history"])
+        ctx.traces += 1
+        ctx.states += 1
+        ctx.nt_count += 1
+        res = check_object_history(case)
+        for site, msg in res:
+            ctx.viol(case, msg, site=site)
+        ctx.outcome((case["history"][-1][0], len(res)))
+    ctx.obs(block[0], block[-1])
+    ctx.sample(block[0])
+
+
 def replay(case):
     return [m for _, m in check_value(case["value"])]
 
@@ -304,6 +383,8 @@ def clauses(tier):
     out = [Clause("lattice", chunks(lattice(), 64), run_values, replay, floor=2000),
            Clause("tolerance_history", chunks(crit, 32), run_values_tol,
                   lambda c: [m for _, m in check_value_tol(c["value"])], floor=1000, shape="H")]
+    out.append(Clause("object_history", chunks(object_history_cases(tier), 32), run_object_history,
+                      lambda c: [m for _, m in check_object_history(c)], floor=1000, shape="H"))
     if tier == "thorough":
         out.append(Clause("c03_bfs_states", list(c03.INITIALS), run_bfs_states, replay, floor=5000))
     return out
